@@ -1,6 +1,9 @@
 package texttable
 
-import "go.pennock.tech/tabular/texttable/decoration"
+import (
+	"go.pennock.tech/tabular"
+	"go.pennock.tech/tabular/texttable/decoration"
+)
 
 // mode 0: every cell an arbitrary printable-ASCII string (no content forks, bytes fully symbolic)
 // mode 1: up to two cells are multi-line (arbitrary bytes of TXT ∪ LF), others concrete
@@ -23,13 +26,17 @@ func verifC03(mode, maxCols, maxBody, L int, decoSel int) {
 				s := ""
 				n := vfChoice(name+".n", L+1)
 				for i := 0; i < n; i++ {
-					switch vfChoice(vfName(name+".a", i), 3) {
+					switch vfChoice(vfName(name+".a", i), 5) {
 					case 0:
 						s += "x"
 					case 1:
 						s += "世"
 					case 2:
 						s += "\n"
+					case 3:
+						s += "​"
+					case 4:
+						s += "\t"
 					}
 				}
 				return s
@@ -179,13 +186,46 @@ func VerifC03_unicode() {
 	verifC03(2, 2, 1, 0, -1)
 }
 
-// one cell of up to six atoms over {x, wide CJK, LF}: lines whose rune counts and widths order differently
+// one cell of up to six atoms over {x, wide CJK, LF, zero-width space, TAB}: lines whose rune counts and widths order differently
 func VerifC03_widelines() {
-	L := 6
+	L := 5
 	if vfTier() == 1 {
-		L = 7
+		L = 6
 	}
 	verifC03(3, 1, 1, L, -1)
+}
+
+type vfMutableText struct{ s string }
+
+func (m *vfMutableText) String() string { return m.s }
+
+// VerifC03_updated: a cell whose item changed text (also to the empty string, also to fewer or more
+// lines) and was updated is laid out by its new text.
+func VerifC03_updated() {
+	texts := []string{"", "ab", "abc\nd", "x\ny\nz", "wide-text"}
+	t := New()
+	m := &vfMutableText{texts[1+vfChoice("before", 4)]}
+	t.AddHeaders("h1", "h2")
+	t.AddRowItems(m, "q")
+	t.AddRowItems("r")
+	if vfChoice("render-first", 2) == 1 {
+		t.Render()
+	}
+	after := texts[vfChoice("after", 5)]
+	m.s = after
+	c, _ := t.CellAt(tabular.CellLocation{Row: 1, Column: 1})
+	c.Update()
+	name := vfDecoNames[vfChoice("deco", 3)]
+	t.SetDecorationNamed(name)
+	d := decoration.Named(name)
+	out, err := t.Render()
+	vfAssert(err == nil, "render-ok")
+	one := func(s string) vfCellSpec { return vfCellSpec{lines: vfLinesOf(s), declW: -1, declH: -1} }
+	hdr := []vfCellSpec{one("h1"), one("h2")}
+	rows := []vfRowSpec{{cells: []vfCellSpec{one(after), one("q")}}, {cells: []vfCellSpec{one("r")}}}
+	want := vfRefRender(d, d == decoration.NoBox(), true, hdr, rows, 2, make([]int, 2))
+	vfAssert(out == want, "layout-as-documented")
+	vfRectangle(out, 2, vfColWidths(hdr, rows, 2), d == decoration.NoBox())
 }
 
 func VerifC03_custom() {
